@@ -15,7 +15,7 @@ rm -f $WT/cbi.log
 echo "== apply to /repo and run check"
 git -C /repo status --short | grep -v cbi.log
 git -C /repo apply $OUT/patch.diff || { echo "PATCH DOES NOT APPLY"; exit 2; }
-(cd /verif && ./check $ID --tier quick --no-evidence "$@" 2>&1 | grep -v "^Compiler\|^Unrecognized" | grep "VIOLATION\|SUMMARY\|HARNESS\|KNOWN" | head -8)
+PID=$(echo $ID | cut -c1-3); (cd /verif && ./check $PID --tier quick --no-evidence "$@" 2>&1 | grep -v "^Compiler\|^Unrecognized" | grep "VIOLATION\|SUMMARY\|HARNESS\|KNOWN" | head -8)
 git -C /repo checkout -- .
 rm -f /repo/cbi.log
 git -C /repo status --short
